@@ -4,5 +4,892 @@ From Ropt Require Import Base.Num Base.ListX Model.ConstraintInfo Model.Transfor
 Import ListNotations.
 Open Scope Q_scope.
 
-Lemma to_opt1_from_opt1 s o y : ~ s == 0 -> (y * s + o - o) / s == y.
-Proof. intros H. field. exact H. Qed.
+(* ================================================================================================ *)
+(* generic list facts                                                                               *)
+(* ================================================================================================ *)
+Lemma Forall2_nth {A B} (R : A -> B -> Prop) a b :
+  length a = length b ->
+  (forall i x y, nth_error a i = Some x -> nth_error b i = Some y -> R x y) -> Forall2 R a b.
+Proof.
+  revert b; induction a as [|x a IH]; intros [|y b] Hl H; cbn in Hl; try discriminate; constructor.
+  - apply (H 0%nat); reflexivity.
+  - apply IH; [lia|]. intros i u v Hu Hv. apply (H (S i)); assumption.
+Qed.
+Lemma Forall2_nth_inv {A B} (R : A -> B -> Prop) a b i x y :
+  Forall2 R a b -> nth_error a i = Some x -> nth_error b i = Some y -> R x y.
+Proof.
+  intros H; revert i; induction H as [|u v a b Huv _ IH]; intros [|i] Hx Hy; cbn in *; try discriminate.
+  - injection Hx as <-; injection Hy as <-; exact Huv.
+  - eapply IH; eassumption.
+Qed.
+Lemma Forall2_length' {A B} (R : A -> B -> Prop) a b : Forall2 R a b -> length a = length b.
+Proof. induction 1; cbn; congruence. Qed.
+Lemma Forall_nth {A} (P : A -> Prop) l i x : Forall P l -> nth_error l i = Some x -> P x.
+Proof. intros H Hn. rewrite Forall_forall in H. apply H. eapply nth_error_In; exact Hn. Qed.
+Lemma nth_error_some_lt {A} (l : list A) i x : nth_error l i = Some x -> (i < length l)%nat.
+Proof. intros H. apply nth_error_Some. congruence. Qed.
+Lemma nth_error_lt_some {A} (l : list A) i : (i < length l)%nat -> exists x, nth_error l i = Some x.
+Proof. intros H. destruct (nth_error l i) eqn:E; [eauto | apply nth_error_None in E; lia]. Qed.
+
+Lemma zipw_nth_some {A B C} (f : A -> B -> C) a b i v :
+  nth_error (zipw f a b) i = Some v -> exists x y, nth_error a i = Some x /\ nth_error b i = Some y /\ v = f x y.
+Proof.
+  rewrite zipw_nth. destruct (nth_error a i) as [x|]; [|discriminate]. destruct (nth_error b i) as [y|]; [|discriminate].
+  intros H; injection H as <-. eauto.
+Qed.
+
+Lemma zipw4_nth {A B C D E} (f : A -> B -> C -> D -> E) a b c d i :
+  nth_error (zipw4 f a b c d) i =
+  match nth_error a i, nth_error b i, nth_error c i, nth_error d i with
+  | Some x1, Some x2, Some x3, Some x4 => Some (f x1 x2 x3 x4) | _, _, _, _ => None end.
+Proof.
+  revert b c d i; induction a as [|x a IH]; intros [|y b] [|z c] [|w d] [|i]; cbn; auto;
+    try (destruct (nth_error a i); auto; destruct (nth_error b i); auto; destruct (nth_error c i); auto; fail).
+Qed.
+Lemma zipw4_length {A B C D E} (f : A -> B -> C -> D -> E) a b c d :
+  length b = length a -> length c = length a -> length d = length a -> length (zipw4 f a b c d) = length a.
+Proof.
+  revert b c d; induction a as [|x a IH]; intros [|y b] [|z c] [|w d]; cbn; intros; try discriminate; auto; f_equal; apply IH; lia.
+Qed.
+Lemma zipw5_nth {A B C D E F} (f : A -> B -> C -> D -> E -> F) a b c d e i :
+  nth_error (zipw5 f a b c d e) i =
+  match nth_error a i, nth_error b i, nth_error c i, nth_error d i, nth_error e i with
+  | Some x1, Some x2, Some x3, Some x4, Some x5 => Some (f x1 x2 x3 x4 x5) | _, _, _, _, _ => None end.
+Proof.
+  revert b c d e i; induction a as [|x a IH]; intros [|y b] [|z c] [|w d] [|v e] [|i]; cbn; auto;
+    try (destruct (nth_error a i); auto; destruct (nth_error b i); auto; destruct (nth_error c i); auto;
+         destruct (nth_error d i); auto; fail).
+Qed.
+Lemma zipw5_length {A B C D E F} (f : A -> B -> C -> D -> E -> F) a b c d e :
+  length b = length a -> length c = length a -> length d = length a -> length e = length a ->
+  length (zipw5 f a b c d e) = length a.
+Proof.
+  revert b c d e; induction a as [|x a IH]; intros [|y b] [|z c] [|w d] [|v e]; cbn; intros; try discriminate; auto; f_equal; apply IH; lia.
+Qed.
+Lemma all_some_nth {A} (l : list (option A)) r i :
+  all_some l = Some r -> nth_error l i = option_map Some (nth_error r i).
+Proof.
+  revert r i; induction l as [|[x|] l IH]; intros r i H; cbn in H.
+  - injection H as <-. destruct i; reflexivity.
+  - destruct (all_some l) as [r'|]; [|discriminate]. injection H as <-. destruct i; cbn; auto.
+  - discriminate.
+Qed.
+Lemma all_some_length {A} (l : list (option A)) r : all_some l = Some r -> length r = length l.
+Proof.
+  revert r; induction l as [|[x|] l IH]; intros r H; cbn in H.
+  - injection H as <-; reflexivity.
+  - destruct (all_some l) as [r'|]; [|discriminate]. injection H as <-. cbn. f_equal. apply IH; reflexivity.
+  - discriminate.
+Qed.
+
+Lemma repeat_nth {A} (x : A) n i : nth_error (repeat x n) i = if Nat.ltb i n then Some x else None.
+Proof.
+  revert i; induction n as [|n IH]; intros [|i]; cbn; auto. rewrite IH. reflexivity.
+Qed.
+Lemma ones_nth n i s : nth_error (ones n) i = Some s -> s = 1.
+Proof. unfold ones. rewrite repeat_nth. destruct (Nat.ltb i n); congruence. Qed.
+Lemma zeros_nth n i s : nth_error (zeros n) i = Some s -> s = 0.
+Proof. unfold zeros. rewrite repeat_nth. destruct (Nat.ltb i n); congruence. Qed.
+Lemma ones_pos n : Forall (fun s => 0 < s) (ones n).
+Proof. unfold ones. induction n; cbn; constructor; [lra | assumption]. Qed.
+Lemma ones_length n : length (ones n) = n. Proof. apply repeat_length. Qed.
+Lemma zeros_length n : length (zeros n) = n. Proof. apply repeat_length. Qed.
+
+(* Forall2 Qeq is an equivalence on vectors *)
+Definition veq : list Q -> list Q -> Prop := Forall2 Qeq.
+Lemma veq_refl a : veq a a.
+Proof. induction a; constructor; [reflexivity | assumption]. Qed.
+Lemma veq_sym a b : veq a b -> veq b a.
+Proof. induction 1; constructor; [symmetry|]; assumption. Qed.
+Lemma veq_trans a b c : veq a b -> veq b c -> veq a c.
+Proof.
+  intros H; revert c; induction H as [|x y a b Hxy _ IH]; intros c Hc; inversion Hc; subst; constructor.
+  - etransitivity; eassumption.
+  - apply IH; assumption.
+Qed.
+Definition meq : list (list Q) -> list (list Q) -> Prop := Forall2 veq.
+Lemma meq_refl a : meq a a.
+Proof. induction a; constructor; [apply veq_refl | assumption]. Qed.
+Lemma meq_app a b c d : meq a b -> meq c d -> meq (a ++ c) (b ++ d).
+Proof. intros H1 H2. apply Forall2_app; assumption. Qed.
+
+(* ================================================================================================ *)
+(* scalar algebra of the positive affine map  T v = (v - o) / s                                      *)
+(* ================================================================================================ *)
+Lemma Qltb_true a b : a < b -> Qltb a b = true. Proof. apply Qltb_lt. Qed.
+
+Section Affine.
+Variables s o : Q.
+Hypothesis Hs : 0 < s.
+Definition T (v : Q) : Q := (v - o) / s.
+Definition Tb (b : ereal) : ereal := edivq (esubq b o) s.
+
+Lemma Tb_fin c : Tb (Fin c) = Fin (T c). Proof. reflexivity. Qed.
+Lemma Tb_ninf : Tb NInf = NInf. Proof. unfold Tb; cbn. rewrite (Qltb_true _ _ Hs). reflexivity. Qed.
+Lemma Tb_pinf : Tb PInf = PInf. Proof. unfold Tb; cbn. rewrite (Qltb_true _ _ Hs). reflexivity. Qed.
+
+Lemma T_back v : T v * s + o == v.
+Proof. unfold T. field. lra. Qed.
+Lemma T_of_back y : T (y * s + o) == y.
+Proof. unfold T. field. lra. Qed.
+
+Lemma T_le a b : a <= b <-> T a <= T b.
+Proof.
+  assert (Hi : 0 < / s) by (apply Qinv_lt_0_compat, Hs).
+  unfold T, Qdiv. split; intros H; [nra|].
+  assert (H2 : (a - o) * / s * s <= (b - o) * / s * s) by nra.
+  assert (E1 : (a - o) * / s * s == a - o) by (field; lra).
+  assert (E2 : (b - o) * / s * s == b - o) by (field; lra).
+  lra.
+Qed.
+Lemma T_lt a b : a < b <-> T a < T b.
+Proof.
+  split; intros H.
+  - apply Qnot_le_lt. intros H2. apply T_le in H2. lra.
+  - apply Qnot_le_lt. intros H2. apply (proj1 (T_le b a)) in H2. lra.
+Qed.
+
+Lemma Qleb_proper a a' b b' : a == a' -> b == b' -> Qleb a b = Qleb a' b'.
+Proof.
+  intros Ha Hb. destruct (Qleb a' b') eqn:E.
+  - apply Qleb_le. apply Qleb_le in E. lra.
+  - apply Qleb_nle. apply Qleb_nle in E. lra.
+Qed.
+Lemma Qltb_proper a a' b b' : a == a' -> b == b' -> Qltb a b = Qltb a' b'.
+Proof. intros Ha Hb. unfold Qltb. f_equal. apply Qleb_proper; assumption. Qed.
+Lemma Qleb_T a b : Qleb (T a) (T b) = Qleb a b.
+Proof.
+  destruct (Qleb a b) eqn:E.
+  - apply Qleb_le. apply (proj1 (T_le a b)). apply Qleb_le. exact E.
+  - apply Qleb_nle. apply Qleb_nle in E. intros H. apply E. apply (proj2 (T_le a b)). exact H.
+Qed.
+Lemma Qltb_T a b : Qltb (T a) (T b) = Qltb a b.
+Proof. unfold Qltb. f_equal. apply Qleb_T. Qed.
+
+(* bounds: v inside [l, u]  <=>  T v inside [Tb l, Tb u] *)
+Lemma ele_Tb_l l v v' : v' == T v -> ele (Tb l) (Fin v') = ele l (Fin v).
+Proof.
+  intros H. destruct l as [|a|]; [rewrite Tb_ninf | rewrite Tb_fin | rewrite Tb_pinf]; cbn; auto.
+  rewrite (Qleb_proper _ (T a) _ (T v)) by (auto; reflexivity). apply Qleb_T.
+Qed.
+Lemma ele_Tb_u u v v' : v' == T v -> ele (Fin v') (Tb u) = ele (Fin v) u.
+Proof.
+  intros H. destruct u as [|a|]; [rewrite Tb_ninf | rewrite Tb_fin | rewrite Tb_pinf]; cbn; auto.
+  rewrite (Qleb_proper _ (T v) _ (T a)) by (auto; reflexivity). apply Qleb_T.
+Qed.
+Lemma within_T l u v v' : v' == T v -> within (Tb l) (Tb u) v' = within l u v.
+Proof. intros H. unfold within. rewrite (ele_Tb_l l v v' H), (ele_Tb_u u v v' H). reflexivity. Qed.
+
+(* differences: (T v - Tb b) * s = v - b, also for infinite b *)
+Lemma ediff_back b v v' : v' == T v -> eeq (escale s (ediff v' (Tb b))) (ediff v b).
+Proof.
+  intros H. destruct b as [|c|]; [rewrite Tb_ninf | rewrite Tb_fin | rewrite Tb_pinf]; cbn;
+    try (rewrite (Qltb_true _ _ Hs); exact I).
+  rewrite H. unfold T. field. lra.
+Qed.
+
+(* ---- boundary handling commutes with T -------------------------------------------------------- *)
+Lemma below_T y y' lb : y' == T y -> below y' (Tb lb) = below y lb.
+Proof.
+  intros H. destruct lb as [|l|]; [rewrite Tb_ninf | rewrite Tb_fin | rewrite Tb_pinf]; cbn; auto.
+  rewrite (Qltb_proper _ (T y) _ (T l)) by (auto; reflexivity). apply Qltb_T.
+Qed.
+Lemma above_T y y' ub : y' == T y -> above y' (Tb ub) = above y ub.
+Proof.
+  intros H. destruct ub as [|u|]; [rewrite Tb_ninf | rewrite Tb_fin | rewrite Tb_pinf]; cbn; auto.
+  rewrite (Qltb_proper _ (T u) _ (T y)) by (auto; reflexivity). apply Qltb_T.
+Qed.
+Lemma refl_T b y y' : y' == T y -> refl (Tb b) y' == T (refl b y).
+Proof.
+  intros H. destruct b as [|c|]; [rewrite Tb_ninf | rewrite Tb_fin | rewrite Tb_pinf]; cbn; try exact H.
+  rewrite H. unfold T. field. lra.
+Qed.
+Lemma mstep_lo_T lb ub y y' : y' == T y -> mstep_lo (Tb lb) (Tb ub) y' == T (mstep_lo lb ub y).
+Proof.
+  intros H. unfold mstep_lo. rewrite (below_T y y' lb H). destruct (below y lb).
+  - pose proof (refl_T lb y y' H) as H1. rewrite (above_T (refl lb y) _ ub H1).
+    destruct (above (refl lb y) ub); [apply refl_T; exact H1 | exact H1].
+  - rewrite (above_T y y' ub H). destruct (above y ub); [apply refl_T; exact H | exact H].
+Qed.
+Lemma mstep_hi_T lb ub y y' : y' == T y -> mstep_hi (Tb lb) (Tb ub) y' == T (mstep_hi lb ub y).
+Proof.
+  intros H. unfold mstep_hi. rewrite (above_T y y' ub H). destruct (above y ub).
+  - pose proof (refl_T ub y y' H) as H1. rewrite (below_T (refl ub y) _ lb H1).
+    destruct (below (refl ub y) lb); [apply refl_T; exact H1 | exact H1].
+  - rewrite (below_T y y' lb H). destruct (below y lb); [apply refl_T; exact H | exact H].
+Qed.
+Lemma iter_T n f g : (forall y y', y' == T y -> g y' == T (f y)) ->
+  forall y y', y' == T y -> iter n g y' == T (iter n f y).
+Proof. intros Hfg. induction n as [|n IH]; intros y y' H; cbn; [exact H | apply IH, Hfg, H]. Qed.
+Lemma clip_T lb ub y y' : y' == T y -> clip (Tb lb) (Tb ub) y' == T (clip lb ub y).
+Proof.
+  intros H. unfold clip.
+  assert (H1 : (match Tb lb with Fin l => if Qltb y' l then l else y' | _ => y' end)
+               == T (match lb with Fin l => if Qltb y l then l else y | _ => y end)).
+  { destruct lb as [|l|]; [rewrite Tb_ninf | rewrite Tb_fin | rewrite Tb_pinf]; try exact H.
+    rewrite (Qltb_proper y' (T y) (T l) (T l)) by (auto; reflexivity). rewrite Qltb_T.
+    destruct (Qltb y l); [reflexivity | exact H]. }
+  set (w' := match Tb lb with Fin l => if Qltb y' l then l else y' | _ => y' end) in *.
+  set (w := match lb with Fin l => if Qltb y l then l else y | _ => y end) in *.
+  destruct ub as [|u|]; [rewrite Tb_ninf | rewrite Tb_fin | rewrite Tb_pinf]; try exact H1.
+  rewrite (Qltb_proper (T u) (T u) w' (T w)) by (auto; reflexivity). rewrite Qltb_T.
+  destruct (Qltb u w); [reflexivity | exact H1].
+Qed.
+
+Lemma apply_bounds_T rep t lb ub y y' : y' == T y ->
+  apply_bounds_1 rep t (Tb lb) (Tb ub) y' == T (apply_bounds_1 rep t lb ub y).
+Proof.
+  intros H. unfold apply_bounds_1.
+  assert (H1 : (if match t with BMirror => below y' (Tb lb) | _ => false end
+                then iter rep (mstep_lo (Tb lb) (Tb ub)) y' else y')
+               == T (if match t with BMirror => below y lb | _ => false end
+                     then iter rep (mstep_lo lb ub) y else y)).
+  { destruct t; try exact H. rewrite (below_T y y' lb H).
+    destruct (below y lb); [|exact H]. apply iter_T; [intros; apply mstep_lo_T; assumption | exact H]. }
+  set (v1' := if match t with BMirror => below y' (Tb lb) | _ => false end
+              then iter rep (mstep_lo (Tb lb) (Tb ub)) y' else y') in *.
+  set (v1 := if match t with BMirror => below y lb | _ => false end then iter rep (mstep_lo lb ub) y else y) in *.
+  assert (H2 : (if match t with BMirror => above y' (Tb ub) | _ => false end
+                then iter rep (mstep_hi (Tb lb) (Tb ub)) v1' else v1')
+               == T (if match t with BMirror => above y ub | _ => false end
+                     then iter rep (mstep_hi lb ub) v1 else v1)).
+  { destruct t; try exact H1. rewrite (above_T y y' ub H).
+    destruct (above y ub); [|exact H1]. apply iter_T; [intros; apply mstep_hi_T; assumption | exact H1]. }
+  destruct t; [exact H2 | apply clip_T; exact H2 | apply clip_T; exact H2].
+Qed.
+End Affine.
+
+(* ================================================================================================ *)
+(* vectors: to_opt / from_opt / bounds_to_opt                                                        *)
+(* ================================================================================================ *)
+Lemma to_opt_nth ss os x i :
+  nth_error (to_opt ss os x) i =
+  match nth_error x i, nth_error os i, nth_error ss i with
+  | Some v, Some o, Some s => Some (T s o v) | _, _, _ => None end.
+Proof.
+  unfold to_opt. rewrite !zipw_nth.
+  destruct (nth_error x i), (nth_error os i), (nth_error ss i); reflexivity.
+Qed.
+Lemma from_opt_nth ss os y i :
+  nth_error (from_opt ss os y) i =
+  match nth_error y i, nth_error ss i, nth_error os i with
+  | Some v, Some s, Some o => Some (v * s + o) | _, _, _ => None end.
+Proof.
+  unfold from_opt. rewrite !zipw_nth.
+  destruct (nth_error y i), (nth_error ss i), (nth_error os i); reflexivity.
+Qed.
+Lemma bounds_to_opt_nth ss os b i :
+  nth_error (bounds_to_opt ss os b) i =
+  match nth_error b i, nth_error os i, nth_error ss i with
+  | Some e, Some o, Some s => Some (Tb s o e) | _, _, _ => None end.
+Proof.
+  unfold bounds_to_opt. rewrite !zipw_nth.
+  destruct (nth_error b i), (nth_error os i), (nth_error ss i); reflexivity.
+Qed.
+Lemma to_opt_length ss os x : length ss = length x -> length os = length x -> length (to_opt ss os x) = length x.
+Proof. intros H1 H2. unfold to_opt. rewrite !zipw_length. lia. Qed.
+Lemma from_opt_length ss os y : length ss = length y -> length os = length y -> length (from_opt ss os y) = length y.
+Proof. intros H1 H2. unfold from_opt. rewrite !zipw_length. lia. Qed.
+Lemma bounds_to_opt_length ss os b : length ss = length b -> length os = length b -> length (bounds_to_opt ss os b) = length b.
+Proof. intros H1 H2. unfold bounds_to_opt. rewrite !zipw_length. lia. Qed.
+Lemma to_opt_cons s ss o os v x : to_opt (s :: ss) (o :: os) (v :: x) = T s o v :: to_opt ss os x.
+Proof. reflexivity. Qed.
+
+Definition nonzero (ss : list Q) : Prop := Forall (fun s => ~ s == 0) ss.
+Definition positive (ss : list Q) : Prop := Forall (fun s => 0 < s) ss.
+Lemma positive_nonzero ss : positive ss -> nonzero ss.
+Proof. unfold positive, nonzero. apply Forall_impl. intros s H. lra. Qed.
+
+Lemma roundtrip_from_to ss os x :
+  length ss = length x -> length os = length x -> nonzero ss -> veq (from_opt ss os (to_opt ss os x)) x.
+Proof.
+  intros H1 H2 Hnz. apply Forall2_nth.
+  - rewrite from_opt_length; rewrite ?to_opt_length; auto.
+  - intros i a b Ha Hb. rewrite from_opt_nth, to_opt_nth, Hb in Ha.
+    destruct (nth_error os i) as [o|]; [|discriminate]. destruct (nth_error ss i) as [s|] eqn:Es; [|discriminate].
+    injection Ha as <-. pose proof (Forall_nth _ _ _ _ Hnz Es) as Hs. unfold T. field. exact Hs.
+Qed.
+Lemma roundtrip_to_from ss os y :
+  length ss = length y -> length os = length y -> nonzero ss -> veq (to_opt ss os (from_opt ss os y)) y.
+Proof.
+  intros H1 H2 Hnz. apply Forall2_nth.
+  - rewrite to_opt_length; rewrite ?from_opt_length; auto.
+  - intros i a b Ha Hb. rewrite to_opt_nth, from_opt_nth, Hb in Ha.
+    destruct (nth_error ss i) as [s|] eqn:Es; [|discriminate]. destruct (nth_error os i) as [o|]; [|discriminate].
+    injection Ha as <-. pose proof (Forall_nth _ _ _ _ Hnz Es) as Hs. unfold T. field. exact Hs.
+Qed.
+
+(* ---- bounds -------------------------------------------------------------------------------------- *)
+Lemma all_within_cons l lb u ub v x : all_within (l :: lb) (u :: ub) (v :: x) = within l u v && all_within lb ub x.
+Proof. reflexivity. Qed.
+
+Lemma all_within_spec lb ub x : length lb = length x -> length ub = length x ->
+  (all_within lb ub x = true <->
+   forall i v l u, nth_error x i = Some v -> nth_error lb i = Some l -> nth_error ub i = Some u -> within l u v = true).
+Proof.
+  revert lb ub; induction x as [|v x IH]; intros [|l lb] [|u ub] H1 H2; cbn in H1, H2; try discriminate.
+  - split; [intros _ [|i] ? ? ? H; discriminate | reflexivity].
+  - rewrite all_within_cons, andb_true_iff, IH by lia. split.
+    + intros [Hw Hr] [|i] v' l' u' Hv Hl Hu; cbn in *.
+      * injection Hv as <-; injection Hl as <-; injection Hu as <-; exact Hw.
+      * eapply Hr; eassumption.
+    + intros H. split; [apply (H 0%nat); reflexivity | intros i v' l' u' Hv Hl Hu; apply (H (S i)); assumption].
+Qed.
+
+Lemma bounds_iff_bool ss os lb ub x :
+  length ss = length x -> length os = length x -> length lb = length x -> length ub = length x -> positive ss ->
+  all_within (bounds_to_opt ss os lb) (bounds_to_opt ss os ub) (to_opt ss os x) = all_within lb ub x.
+Proof.
+  revert ss os lb ub; induction x as [|v x IH]; intros [|s ss] [|o os] [|l lb] [|u ub] H1 H2 H3 H4 Hp;
+    cbn in H1, H2, H3, H4; try discriminate; [reflexivity|].
+  inversion Hp as [|? ? Hs Hp']; subst.
+  change (bounds_to_opt (s :: ss) (o :: os) (l :: lb)) with (Tb s o l :: bounds_to_opt ss os lb).
+  change (bounds_to_opt (s :: ss) (o :: os) (u :: ub)) with (Tb s o u :: bounds_to_opt ss os ub).
+  rewrite to_opt_cons, !all_within_cons, IH by (auto; lia).
+  rewrite (within_T s o Hs l u v (T s o v)) by reflexivity. reflexivity.
+Qed.
+
+(* ================================================================================================ *)
+(* linear constraints                                                                                *)
+(* ================================================================================================ *)
+Lemma dot_nil_r a : dot a [] = 0.
+Proof. destruct a; reflexivity. Qed.
+
+(* row' . to_opt x = (row . x - row . offsets) / e   for the rescaled row  row'_j = row_j * s_j / e *)
+Lemma dot_to_opt r ss os x e :
+  length r = length x -> length ss = length x -> length os = length x -> nonzero ss -> ~ e == 0 ->
+  dot (map (fun a => a / e) (zipw Qmult r ss)) (to_opt ss os x) == (dot r x - dot r os) / e.
+Proof.
+  revert ss os x; induction r as [|a r IH]; intros [|s ss] [|o os] [|v x] H1 H2 H3 Hnz He;
+    cbn in H1, H2, H3; try discriminate.
+  - cbn [zipw map]. rewrite !dot_nil_l. field. exact He.
+  - inversion Hnz as [|? ? Hs Hnz']; subst.
+    cbn [zipw map]. rewrite to_opt_cons, !dot_cons. rewrite IH by (auto; lia). unfold T. field. split; assumption.
+Qed.
+
+Lemma qabs_max_nonneg r : 0 <= qabs_max r.
+Proof.
+  destruct r as [|a r]; cbn [qabs_max fold_right]; [lra|]. fold (qabs_max r).
+  pose proof (Qabs_nonneg a). pose proof (Q.le_max_l (Qabs a) (qabs_max r)). lra.
+Qed.
+Lemma qabs_max_pos r : 0 < qabs_max r <-> exists a, In a r /\ ~ a == 0.
+Proof.
+  induction r as [|a r IH]; cbn [qabs_max fold_right].
+  - split; [lra | intros (a & [] & _)].
+  - fold (qabs_max r). split.
+    + intros H. destruct (Qeq_dec a 0) as [Ea|Ea].
+      * assert (Hr : 0 < qabs_max r).
+        { destruct (Q.max_spec (Qabs a) (qabs_max r)) as [[_ E]|[Hle E]]; rewrite E in H; [exact H|].
+          rewrite Ea in H. cbn in H. lra. }
+        apply IH in Hr as (b & Hb & Hnz). exists b. split; [right; exact Hb | exact Hnz].
+      * exists a. split; [left; reflexivity | exact Ea].
+    + intros (b & [<-|Hb] & Hnz).
+      * assert (0 < Qabs a).
+        { pose proof (Qabs_nonneg a) as Hn. destruct (Qeq_dec (Qabs a) 0) as [E|E]; [|lra].
+          exfalso. revert E. apply Qabs_case; intros H0 E; apply Hnz; lra. }
+        pose proof (Q.le_max_l (Qabs a) (qabs_max r)). lra.
+      * assert (0 < qabs_max r) by (apply IH; eauto).
+        pose proof (Q.le_max_r (Qabs a) (qabs_max r)). lra.
+Qed.
+
+Lemma forallb_nth {A} (p : A -> bool) l i x : forallb p l = true -> nth_error l i = Some x -> p x = true.
+Proof. intros H Hn. rewrite forallb_forall in H. apply H. eapply nth_error_In; exact Hn. Qed.
+
+(* row i of the transformed linear constraints *)
+Lemma linear_to_opt_row ss os lc lc' eq i r l u :
+  linear_to_opt ss os lc = Some (lc', eq) ->
+  nth_error (l_coef lc) i = Some r -> nth_error (l_lower lc) i = Some l -> nth_error (l_upper lc) i = Some u ->
+  exists e, nth_error eq i = Some e /\ 0 < e /\ e = qabs_max (zipw Qmult r ss) /\
+            nth_error (l_coef lc') i = Some (map (fun a => a / e) (zipw Qmult r ss)) /\
+            nth_error (l_lower lc') i = Some (Tb e (dot r os) l) /\
+            nth_error (l_upper lc') i = Some (Tb e (dot r os) u).
+Proof.
+  unfold linear_to_opt. intros H Hr Hl Hu.
+  destruct (forallb (fun e => Qltb 0 e) (equation_scaling (l_coef lc) ss)) eqn:Hall; [|discriminate].
+  injection H as <- <-. exists (qabs_max (zipw Qmult r ss)).
+  assert (He : nth_error (equation_scaling (l_coef lc) ss) i = Some (qabs_max (zipw Qmult r ss))).
+  { unfold equation_scaling, scale_rows. rewrite !nth_error_map, Hr. reflexivity. }
+  split; [exact He|]. split; [apply Qltb_lt; exact (forallb_nth _ _ _ _ Hall He)|]. split; [reflexivity|].
+  cbn [l_coef l_lower l_upper]. rewrite !zipw_nth, He.
+  unfold scale_rows at 1. rewrite nth_error_map, Hr. cbn [option_map].
+  rewrite Hl, Hu. unfold matvec. rewrite nth_error_map, Hr. cbn [option_map]. auto.
+Qed.
+
+Lemma linear_to_opt_lengths ss os lc lc' eq :
+  linear_to_opt ss os lc = Some (lc', eq) ->
+  length (l_lower lc) = length (l_coef lc) -> length (l_upper lc) = length (l_coef lc) ->
+  length eq = length (l_coef lc) /\ length (l_coef lc') = length (l_coef lc) /\
+  length (l_lower lc') = length (l_coef lc) /\ length (l_upper lc') = length (l_coef lc).
+Proof.
+  unfold linear_to_opt. intros H H1 H2.
+  destruct (forallb (fun e => Qltb 0 e) (equation_scaling (l_coef lc) ss)); [|discriminate].
+  injection H as <- <-. cbn [l_coef l_lower l_upper]. unfold equation_scaling, scale_rows, matvec.
+  rewrite !zipw_length, !map_length. lia.
+Qed.
+
+(* the transformation is defined exactly when no (scaled) row vanishes *)
+Lemma linear_to_opt_defined ss os lc :
+  (forall r, In r (l_coef lc) -> exists a, In a (zipw Qmult r ss) /\ ~ a == 0) ->
+  exists lc' eq, linear_to_opt ss os lc = Some (lc', eq).
+Proof.
+  intros H. unfold linear_to_opt.
+  assert (Hall : forallb (fun e => Qltb 0 e) (equation_scaling (l_coef lc) ss) = true).
+  { apply forallb_forall. intros e He. unfold equation_scaling, scale_rows in He.
+    rewrite map_map in He. apply in_map_iff in He as (r & <- & Hr). apply Qltb_lt. apply qabs_max_pos. apply H. exact Hr. }
+  rewrite Hall. eauto.
+Qed.
+
+(* one row: same feasibility, and the back-transformed differences are the user-domain differences *)
+Lemma linear_row_invariant ss os x r l u e :
+  length r = length x -> length ss = length x -> length os = length x -> positive ss -> 0 < e ->
+  let r' := map (fun a => a / e) (zipw Qmult r ss) in
+  let y := to_opt ss os x in
+  within (Tb e (dot r os) l) (Tb e (dot r os) u) (dot r' y) = within l u (dot r x) /\
+  eeq (escale e (ediff (dot r' y) (Tb e (dot r os) l))) (ediff (dot r x) l) /\
+  eeq (escale e (ediff (dot r' y) (Tb e (dot r os) u))) (ediff (dot r x) u).
+Proof.
+  intros H1 H2 H3 Hp He r' y.
+  assert (Hd : dot r' y == T e (dot r os) (dot r x)).
+  { unfold r', y, T. apply dot_to_opt; auto; [apply positive_nonzero; exact Hp | lra]. }
+  split; [apply within_T; assumption|]. split; apply ediff_back; assumption.
+Qed.
+
+(* ================================================================================================ *)
+(* perturbations and evaluator requests                                                              *)
+(* ================================================================================================ *)
+(* the magnitude in the user's own units: absolute m, relative (upper - lower) * m *)
+Definition eff_mag (l u : ereal) (pt : ptype) (m : Q) : option Q :=
+  match pt with
+  | PRel => match l, u with Fin a, Fin b => Some ((b - a) * m) | _, _ => None end
+  | PAbs => Some m
+  end.
+
+Lemma fix_magnitude_eff s o l u pt m mh : 0 < s ->
+  fix_magnitude s (Tb s o l) (Tb s o u) pt m = Some mh -> exists me, eff_mag l u pt m = Some me /\ mh == me / s.
+Proof.
+  intros Hs. destruct pt; cbn [fix_magnitude eff_mag].
+  - intros H; injection H as <-. exists m. split; reflexivity.
+  - destruct l as [|a|], u as [|b|]; rewrite ?Tb_ninf, ?Tb_pinf, ?Tb_fin by exact Hs; try discriminate.
+    intros H; injection H as <-. exists ((b - a) * m). split; [reflexivity|]. unfold T. field. lra.
+Qed.
+
+(* one component: mapping the optimizer-domain perturbed value back gives the user-domain perturbed value *)
+Lemma perturb1_canonical rep t s o l u x z mh me : 0 < s -> mh == me / s ->
+  apply_bounds_1 rep t (Tb s o l) (Tb s o u) (T s o x + mh * z) * s + o == apply_bounds_1 rep t l u (x + me * z).
+Proof.
+  intros Hs Hm.
+  assert (Hy : T s o x + mh * z == T s o (x + me * z)) by (rewrite Hm; unfold T; field; lra).
+  rewrite (apply_bounds_T s o Hs rep t l u (x + me * z) _ Hy). apply T_back. exact Hs.
+Qed.
+
+(* well-formedness of the sizes of a user configuration with n variables *)
+Definition ucfg_sized (n : nat) (u : ucfg) : Prop :=
+  length (u_x0 u) = n /\ length (u_lb u) = n /\ length (u_ub u) = n /\ length (u_mag u) = n /\
+  length (u_pt u) = n /\ length (u_bt u) = n.
+
+Lemma validate_vars_fields ss os u m : validate_vars ss os u = Some m ->
+  g_x0 m = to_opt ss os (u_x0 u) /\ g_lb m = bounds_to_opt ss os (u_lb u) /\ g_ub m = bounds_to_opt ss os (u_ub u) /\
+  g_bt m = u_bt u /\
+  fix_magnitudes ss (bounds_to_opt ss os (u_lb u)) (bounds_to_opt ss os (u_ub u)) (u_pt u) (u_mag u) = Some (g_mag m).
+Proof.
+  unfold validate_vars. intros H.
+  destruct (existsb _ _); [discriminate|].
+  destruct (fix_magnitudes _ _ _ _ _) as [mm|] eqn:E; [|discriminate]. injection H as <-. cbn. auto.
+Qed.
+
+Lemma perturb_length rep m y z n :
+  length y = n -> length z = n -> length (g_mag m) = n -> length (g_lb m) = n -> length (g_ub m) = n -> length (g_bt m) = n ->
+  length (perturb rep m y z) = n.
+Proof.
+  intros. unfold perturb. rewrite zipw4_length; rewrite !zipw_length; lia.
+Qed.
+
+Lemma validate_vars_lengths n ss os u m : ucfg_sized n u -> length ss = n -> length os = n ->
+  validate_vars ss os u = Some m ->
+  length (g_x0 m) = n /\ length (g_lb m) = n /\ length (g_ub m) = n /\ length (g_mag m) = n /\ length (g_bt m) = n.
+Proof.
+  intros (H1 & H2 & H3 & H4 & H5 & H6) Hss Hos Hv.
+  destruct (validate_vars_fields _ _ _ _ Hv) as (E1 & E2 & E3 & E4 & E5).
+  rewrite E1, E2, E3, E4. rewrite to_opt_length, !bounds_to_opt_length by lia.
+  unfold fix_magnitudes in E5. apply all_some_length in E5. rewrite E5.
+  rewrite zipw5_length; rewrite ?bounds_to_opt_length; lia.
+Qed.
+
+(* every component of a row handed to the evaluator, expressed in the user's own units *)
+Lemma request_component rep n ss os u m x z i a :
+  ucfg_sized n u -> length ss = n -> length os = n -> positive ss -> validate_vars ss os u = Some m ->
+  nth_error (from_opt ss os (perturb rep m (to_opt ss os x) z)) i = Some a ->
+  exists xi zi l ub t mg p me,
+    nth_error x i = Some xi /\ nth_error z i = Some zi /\ nth_error (u_lb u) i = Some l /\
+    nth_error (u_ub u) i = Some ub /\ nth_error (u_bt u) i = Some t /\ nth_error (u_mag u) i = Some mg /\
+    nth_error (u_pt u) i = Some p /\ eff_mag l ub p mg = Some me /\
+    a == apply_bounds_1 rep t l ub (xi + me * zi).
+Proof.
+  intros Hsz Hss Hos Hp Hv Ha.
+  destruct (validate_vars_fields _ _ _ _ Hv) as (E1 & E2 & E3 & E4 & E5).
+  rewrite from_opt_nth in Ha.
+  destruct (nth_error (perturb rep m (to_opt ss os x) z) i) as [v|] eqn:Ev; [|discriminate].
+  destruct (nth_error ss i) as [s|] eqn:Es; [|discriminate].
+  destruct (nth_error os i) as [o|] eqn:Eo; [|discriminate]. injection Ha as <-.
+  pose proof (Forall_nth _ _ _ _ Hp Es) as Hs.
+  unfold perturb in Ev. rewrite zipw4_nth in Ev.
+  destruct (nth_error (zipw Qplus (to_opt ss os x) (zipw Qmult (g_mag m) z)) i) as [w|] eqn:Ew; [|discriminate].
+  destruct (nth_error (g_lb m) i) as [l'|] eqn:El'; [|discriminate].
+  destruct (nth_error (g_ub m) i) as [u'|] eqn:Eu'; [|discriminate].
+  destruct (nth_error (g_bt m) i) as [t|] eqn:Et; [|discriminate]. injection Ev as <-.
+  apply zipw_nth_some in Ew as (y & mz & Hy & Hmz & ->).
+  apply zipw_nth_some in Hmz as (mh & zi & Hmh & Hzi & ->).
+  rewrite to_opt_nth, Eo, Es in Hy. destruct (nth_error x i) as [xi|] eqn:Exi; [|discriminate]. injection Hy as <-.
+  rewrite E2, bounds_to_opt_nth, Eo, Es in El'. destruct (nth_error (u_lb u) i) as [l|] eqn:El; [|discriminate].
+  injection El' as <-.
+  rewrite E3, bounds_to_opt_nth, Eo, Es in Eu'. destruct (nth_error (u_ub u) i) as [ub|] eqn:Eub; [|discriminate].
+  injection Eu' as <-. rewrite E4 in Et.
+  unfold fix_magnitudes in E5.
+  pose proof (all_some_nth _ _ i E5) as Hn. rewrite Hmh in Hn. cbn [option_map] in Hn.
+  rewrite zipw5_nth, Es, !bounds_to_opt_nth, El, Eub, Eo, Es in Hn.
+  destruct (nth_error (u_pt u) i) as [p|] eqn:Ep; [|discriminate].
+  destruct (nth_error (u_mag u) i) as [mg|] eqn:Emg; [|discriminate]. injection Hn as Hfix.
+  destruct (fix_magnitude_eff s o l ub p mg mh Hs Hfix) as (me & Heff & Hme).
+  exists xi, zi, l, ub, t, mg, p, me. repeat (split; [reflexivity || assumption|]).
+  apply perturb1_canonical; assumption.
+Qed.
+
+(* one perturbed row: two validated versions of the same user configuration (any two positive scalers) give
+   the same user-domain vector *)
+Lemma perturbed_vector_invariant rep n u ss1 os1 m1 ss2 os2 m2 x z :
+  ucfg_sized n u -> length x = n -> length z = n ->
+  length ss1 = n -> length os1 = n -> positive ss1 -> validate_vars ss1 os1 u = Some m1 ->
+  length ss2 = n -> length os2 = n -> positive ss2 -> validate_vars ss2 os2 u = Some m2 ->
+  veq (from_opt ss1 os1 (perturb rep m1 (to_opt ss1 os1 x) z)) (from_opt ss2 os2 (perturb rep m2 (to_opt ss2 os2 x) z)).
+Proof.
+  intros Hsz Hx Hz Hs1 Ho1 Hp1 Hv1 Hs2 Ho2 Hp2 Hv2.
+  destruct (validate_vars_lengths n _ _ _ _ Hsz Hs1 Ho1 Hv1) as (_ & L1 & L2 & L3 & L4).
+  destruct (validate_vars_lengths n _ _ _ _ Hsz Hs2 Ho2 Hv2) as (_ & K1 & K2 & K3 & K4).
+  apply Forall2_nth.
+  - rewrite !from_opt_length; rewrite ?(perturb_length rep _ _ _ n); rewrite ?to_opt_length; auto; lia.
+  - intros i a b Ha Hb.
+    destruct (request_component rep n _ _ _ _ _ _ _ _ Hsz Hs1 Ho1 Hp1 Hv1 Ha)
+      as (xi & zi & l & ub & t & mg & p & me & A1 & A2 & A3 & A4 & A5 & A6 & A7 & A8 & A9).
+    destruct (request_component rep n _ _ _ _ _ _ _ _ Hsz Hs2 Ho2 Hp2 Hv2 Hb)
+      as (xi' & zi' & l' & ub' & t' & mg' & p' & me' & B1 & B2 & B3 & B4 & B5 & B6 & B7 & B8 & B9).
+    rewrite A1 in B1; injection B1 as <-. rewrite A2 in B2; injection B2 as <-.
+    rewrite A3 in B3; injection B3 as <-. rewrite A4 in B4; injection B4 as <-.
+    rewrite A5 in B5; injection B5 as <-. rewrite A6 in B6; injection B6 as <-.
+    rewrite A7 in B7; injection B7 as <-. rewrite A8 in B8; injection B8 as <-.
+    rewrite A9, B9. reflexivity.
+Qed.
+
+Lemma map_repeat' {A B} (f : A -> B) x n : map f (repeat x n) = repeat (f x) n.
+Proof. induction n; cbn; congruence. Qed.
+Lemma Forall2_repeat {A B} (R : A -> B -> Prop) x y n : R x y -> Forall2 R (repeat x n) (repeat y n).
+Proof. intros H. induction n; cbn; constructor; assumption. Qed.
+
+Lemma perturbed_rows_invariant rep n u ss1 os1 m1 ss2 os2 m2 x samples :
+  ucfg_sized n u -> length x = n -> Forall (Forall (fun z => length z = n)) samples ->
+  length ss1 = n -> length os1 = n -> positive ss1 -> validate_vars ss1 os1 u = Some m1 ->
+  length ss2 = n -> length os2 = n -> positive ss2 -> validate_vars ss2 os2 u = Some m2 ->
+  meq (map (from_opt ss1 os1) (perturbed_rows rep m1 (to_opt ss1 os1 x) samples))
+      (map (from_opt ss2 os2) (perturbed_rows rep m2 (to_opt ss2 os2 x) samples)).
+Proof.
+  intros Hsz Hx Hsm Hs1 Ho1 Hp1 Hv1 Hs2 Ho2 Hp2 Hv2. unfold perturbed_rows.
+  induction Hsm as [|zr samples Hzr _ IH]; cbn [map concat]; [constructor|].
+  rewrite !map_app. apply meq_app; [|exact IH].
+  induction Hzr as [|z zr Hz _ IHz]; cbn [map]; constructor; [|exact IHz].
+  eapply perturbed_vector_invariant; eassumption.
+Qed.
+
+(* all rows of one evaluator call *)
+Lemma requests_invariant rep R k n u ss1 os1 m1 ss2 os2 m2 x samples :
+  ucfg_sized n u -> length x = n -> Forall (Forall (fun z => length z = n)) samples ->
+  length ss1 = n -> length os1 = n -> positive ss1 -> validate_vars ss1 os1 u = Some m1 ->
+  length ss2 = n -> length os2 = n -> positive ss2 -> validate_vars ss2 os2 u = Some m2 ->
+  meq (requests rep R k ss1 os1 m1 (to_opt ss1 os1 x) samples) (requests rep R k ss2 os2 m2 (to_opt ss2 os2 x) samples).
+Proof.
+  intros Hsz Hx Hsm Hs1 Ho1 Hp1 Hv1 Hs2 Ho2 Hp2 Hv2.
+  assert (Hrep : meq (map (from_opt ss1 os1) (repeat (to_opt ss1 os1 x) R))
+                     (map (from_opt ss2 os2) (repeat (to_opt ss2 os2 x) R))).
+  { rewrite !map_repeat'. apply Forall2_repeat.
+    eapply veq_trans; [apply roundtrip_from_to; try lia; apply positive_nonzero; assumption|].
+    apply veq_sym. apply roundtrip_from_to; try lia. apply positive_nonzero; assumption. }
+  assert (Hrows := perturbed_rows_invariant rep n u ss1 os1 m1 ss2 os2 m2 x samples
+                     Hsz Hx Hsm Hs1 Ho1 Hp1 Hv1 Hs2 Ho2 Hp2 Hv2).
+  unfold requests, request_rows. destruct k; [exact Hrep | exact Hrows | rewrite !map_app; apply meq_app; assumption].
+Qed.
+
+(* the function-evaluation row of a call is the user's own point *)
+Lemma function_request_is_point ss os x :
+  length ss = length x -> length os = length x -> positive ss -> veq (from_opt ss os (to_opt ss os x)) x.
+Proof. intros H1 H2 Hp. apply roundtrip_from_to; auto. apply positive_nonzero; exact Hp. Qed.
+
+(* ================================================================================================ *)
+(* results: per-realization values, function values                                                  *)
+(* ================================================================================================ *)
+Lemma fun_roundtrip sc f : length sc = length f -> nonzero sc -> veq (fun_from_opt sc (fun_to_opt sc f)) f.
+Proof.
+  intros Hl Hnz. apply Forall2_nth.
+  - unfold fun_from_opt, fun_to_opt. rewrite !zipw_length. lia.
+  - intros i a b Ha Hb. unfold fun_from_opt, fun_to_opt in Ha. rewrite !zipw_nth, Hb in Ha.
+    destruct (nth_error sc i) as [s|] eqn:Es; [|discriminate]. injection Ha as <-.
+    pose proof (Forall_nth _ _ _ _ Hnz Es). field. assumption.
+Qed.
+
+Lemma dot_map_div w f s : dot w (map (fun v => v / s) f) == dot w f / s.
+Proof.
+  revert f; induction w as [|a w IH]; intros [|v f]; cbn [map]; rewrite ?dot_nil_l, ?dot_nil_r;
+    try (unfold Qdiv; ring).
+  rewrite !dot_cons, IH. unfold Qdiv. ring.
+Qed.
+(* the weighted mean is homogeneous: scaling every realization's value by 1/s scales the mean by 1/s *)
+Lemma wmean_homogeneous w f s : wmean w (map (fun v => v / s) f) == wmean w f / s.
+Proof. unfold wmean. rewrite dot_map_div. unfold Qdiv. ring. Qed.
+
+(* any estimator with that homogeneity returns, after the back-transformation, the untransformed value *)
+Lemma function_value_invariant (est : list Q -> Q) :
+  (forall c f, 0 < c -> est (map (fun v => v / c) f) == est f / c) ->
+  forall s col, 0 < s -> est (map (fun v => v / s) col) * s == est col.
+Proof. intros H s col Hs. rewrite (H s col Hs). field. lra. Qed.
+
+(* ================================================================================================ *)
+(* constraint information: back-transformed differences and recomputed violations (C13 transform)     *)
+(* ================================================================================================ *)
+Lemma eneg_eeq a b : eeq a b -> eeq (eneg a) (eneg b).
+Proof. destruct a, b; cbn; auto. intros H; rewrite H; reflexivity. Qed.
+Lemma emax_eeq a a' b b' : eeq a a' -> eeq b b' -> eeq (emax a b) (emax a' b').
+Proof. intros H1 H2. unfold emax. rewrite (ele_eeq a a' b b' H1 H2). destruct (ele a' b'); assumption. Qed.
+Lemma viol1_eeq a a' b b' : eeq a a' -> eeq b b' -> eeq (viol1 a b) (viol1 a' b').
+Proof.
+  intros H1 H2. unfold viol1.
+  rewrite (elt_eeq a a' (Fin 0) (Fin 0) H1 (eeq_refl _)), (elt_eeq (Fin 0) (Fin 0) b b' (eeq_refl _) H2).
+  apply emax_eeq.
+  - destruct (elt a' (Fin 0)); [apply eneg_eeq; exact H1 | apply eeq_refl].
+  - destruct (elt (Fin 0) b'); [exact H2 | apply eeq_refl].
+Qed.
+Lemma escale_eeq s a b : eeq a b -> eeq (escale s a) (escale s b).
+Proof.
+  intros H. destruct a, b; cbn in *; try contradiction; try (destruct (Qltb 0 s); cbn; exact I).
+  rewrite H; reflexivity.
+Qed.
+Lemma ediff_eeq v a b : eeq a b -> eeq (ediff v a) (ediff v b).
+Proof. destruct a, b; cbn; auto. intros H; rewrite H; reflexivity. Qed.
+Lemma edivq_esubq_zero b k : eeq (edivq b k) (Tb k 0 b).
+Proof. destruct b as [|c|]; unfold Tb; cbn; try (destruct (Qltb 0 k); exact I). unfold Qdiv. ring. Qed.
+
+Definition eveq : list ereal -> list ereal -> Prop := Forall2 eeq.
+Definition fam_eq (f g : family) : Prop :=
+  eveq (f_lower f) (f_lower g) /\ eveq (f_upper f) (f_upper g) /\ eveq (f_viol f) (f_viol g).
+Definition ofam_eq (f g : option family) : Prop :=
+  match f, g with Some a, Some b => fam_eq a b | None, None => True | _, _ => False end.
+Definition cinfo_eq (a b : cinfo) : Prop :=
+  ofam_eq (ci_bound a) (ci_bound b) /\ ofam_eq (ci_linear a) (ci_linear b) /\ ofam_eq (ci_nonlinear a) (ci_nonlinear b).
+Definition created_eq (a b : created) : Prop :=
+  match a, b with CErr, CErr | CNone, CNone => True | CInfo x, CInfo y => cinfo_eq x y | _, _ => False end.
+
+Lemma family_of_diffs_eq ld ld' ud ud' :
+  eveq ld ld' -> eveq ud ud' -> fam_eq (family_of_diffs ld ud) (family_of_diffs ld' ud').
+Proof.
+  intros H1 H2. unfold fam_eq, family_of_diffs; cbn. repeat split; auto.
+  revert ud ud' H2; induction H1 as [|a a' ld ld' Ha _ IH]; intros ud ud' H2; [constructor|].
+  destruct H2 as [|b b' ud ud' Hb H2]; cbn; constructor; [apply viol1_eeq; assumption | apply IH; assumption].
+Qed.
+
+(* a family computed in the optimizer domain and mapped back entry by entry with factors ks *)
+Lemma family_from_opt_eq ks vals vals' lb lb' ub ub' :
+  length vals' = length vals -> length ks = length vals -> length lb = length vals -> length lb' = length vals ->
+  length ub = length vals -> length ub' = length vals ->
+  (forall i v v' l l' u u' k,
+     nth_error vals i = Some v -> nth_error vals' i = Some v' -> nth_error lb i = Some l -> nth_error lb' i = Some l' ->
+     nth_error ub i = Some u -> nth_error ub' i = Some u' -> nth_error ks i = Some k ->
+     eeq (escale k (ediff v' l')) (ediff v l) /\ eeq (escale k (ediff v' u')) (ediff v u)) ->
+  ofam_eq (fam_from_opt (Some ks) (Some (mk_family vals' lb' ub'))) (Some (mk_family vals lb ub)).
+Proof.
+  intros L1 L2 L3 L4 L5 L6 H. cbn [fam_from_opt ofam_eq]. unfold mk_family at 3.
+  apply family_of_diffs_eq; apply Forall2_nth.
+  - unfold mk_family, family_of_diffs; cbn. rewrite !zipw_length. lia.
+  - intros i a b Ha Hb. unfold mk_family, family_of_diffs in Ha; cbn in Ha.
+    apply zipw_nth_some in Ha as (d & k & Hd & Hk & ->). apply zipw_nth_some in Hd as (v' & l' & Hv' & Hl' & ->).
+    apply zipw_nth_some in Hb as (v & l & Hv & Hl & ->).
+    destruct (nth_error_lt_some ub i) as (u & Hu); [rewrite L5; eapply nth_error_some_lt; exact Hv|].
+    destruct (nth_error_lt_some ub' i) as (u' & Hu'); [rewrite L6; eapply nth_error_some_lt; exact Hv|].
+    apply (H i v v' l l' u u' k); assumption.
+  - unfold mk_family, family_of_diffs; cbn. rewrite !zipw_length. lia.
+  - intros i a b Ha Hb. unfold mk_family, family_of_diffs in Ha; cbn in Ha.
+    apply zipw_nth_some in Ha as (d & k & Hd & Hk & ->). apply zipw_nth_some in Hd as (v' & u' & Hv' & Hu' & ->).
+    apply zipw_nth_some in Hb as (v & u & Hv & Hu & ->).
+    destruct (nth_error_lt_some lb i) as (l & Hl); [rewrite L3; eapply nth_error_some_lt; exact Hv|].
+    destruct (nth_error_lt_some lb' i) as (l' & Hl'); [rewrite L4; eapply nth_error_some_lt; exact Hv|].
+    apply (H i v v' l l' u u' k); assumption.
+Qed.
+
+Lemma bound_family_eq ss os x lb ub :
+  length ss = length x -> length os = length x -> length lb = length x -> length ub = length x -> positive ss ->
+  ofam_eq (fam_from_opt (Some ss) (Some (mk_family (to_opt ss os x) (bounds_to_opt ss os lb) (bounds_to_opt ss os ub))))
+          (Some (mk_family x lb ub)).
+Proof.
+  intros H1 H2 H3 H4 Hp. apply family_from_opt_eq; rewrite ?to_opt_length, ?bounds_to_opt_length; try lia.
+  intros i v v' l l' u u' k Hv Hv' Hl Hl' Hu Hu' Hk.
+  rewrite to_opt_nth, Hv, Hk in Hv'. rewrite bounds_to_opt_nth, Hl, Hk in Hl'. rewrite bounds_to_opt_nth, Hu, Hk in Hu'.
+  destruct (nth_error os i) as [o|]; [|discriminate]. injection Hv' as <-; injection Hl' as <-; injection Hu' as <-.
+  pose proof (Forall_nth _ _ _ _ Hp Hk) as Hs. split; apply ediff_back; auto; reflexivity.
+Qed.
+
+Lemma linear_family_eq ss os x lc lc' eq :
+  length ss = length x -> length os = length x -> positive ss ->
+  Forall (fun r => length r = length x) (l_coef lc) ->
+  length (l_lower lc) = length (l_coef lc) -> length (l_upper lc) = length (l_coef lc) ->
+  linear_to_opt ss os lc = Some (lc', eq) ->
+  ofam_eq (fam_from_opt (Some eq) (Some (mk_family (matvec (l_coef lc') (to_opt ss os x)) (l_lower lc') (l_upper lc'))))
+          (Some (mk_family (matvec (l_coef lc) x) (l_lower lc) (l_upper lc))).
+Proof.
+  intros H1 H2 Hp Hrows L1 L2 Hlin.
+  destruct (linear_to_opt_lengths _ _ _ _ _ Hlin L1 L2) as (K1 & K2 & K3 & K4).
+  apply family_from_opt_eq; unfold matvec; rewrite ?map_length; try lia.
+  intros i v v' l l' u u' k Hv Hv' Hl Hl' Hu Hu' Hk.
+  rewrite nth_error_map in Hv. destruct (nth_error (l_coef lc) i) as [r|] eqn:Er; [|discriminate]. injection Hv as <-.
+  destruct (linear_to_opt_row _ _ _ _ _ _ _ _ _ Hlin Er Hl Hu) as (e & He & Hpos & _ & Hr' & Hlo' & Hup').
+  rewrite He in Hk; injection Hk as <-. rewrite Hlo' in Hl'; injection Hl' as <-. rewrite Hup' in Hu'; injection Hu' as <-.
+  rewrite nth_error_map, Hr' in Hv'. injection Hv' as <-.
+  pose proof (Forall_nth _ _ _ _ Hrows Er) as Hlen.
+  destruct (linear_row_invariant ss os x r l u e Hlen H1 H2 Hp Hpos) as (_ & A & B). split; assumption.
+Qed.
+
+Lemma nonlinear_family_eq nls c lo up :
+  length c = length nls -> length lo = length nls -> length up = length nls -> positive nls ->
+  ofam_eq (fam_from_opt (Some nls) (Some (mk_family (fun_to_opt nls c) (ebounds_div nls lo) (ebounds_div nls up))))
+          (Some (mk_family c lo up)).
+Proof.
+  intros H1 H2 H3 Hp. apply family_from_opt_eq; unfold fun_to_opt, ebounds_div; rewrite ?zipw_length; try lia.
+  intros i v v' l l' u u' k Hv Hv' Hl Hl' Hu Hu' Hk.
+  rewrite zipw_nth, Hv, Hk in Hv'. rewrite zipw_nth, Hl, Hk in Hl'. rewrite zipw_nth, Hu, Hk in Hu'.
+  injection Hv' as <-; injection Hl' as <-; injection Hu' as <-.
+  pose proof (Forall_nth _ _ _ _ Hp Hk) as Hs. cbn beta in Hs.
+  assert (Hv' : v / k == T k 0 v) by (unfold T; field; lra).
+  split.
+  - eapply eeq_trans; [apply escale_eeq, ediff_eeq, edivq_esubq_zero | apply ediff_back; assumption].
+  - eapply eeq_trans; [apply escale_eeq, ediff_eeq, edivq_esubq_zero | apply ediff_back; assumption].
+Qed.
+
+Lemma efinite_Tb s o e : 0 < s -> efinite (Tb s o e) = efinite e.
+Proof. intros Hs. destruct e; [rewrite Tb_ninf | rewrite Tb_fin | rewrite Tb_pinf]; auto. Qed.
+Lemma existsb_finite_to_opt ss os b :
+  length ss = length b -> length os = length b -> positive ss ->
+  existsb efinite (bounds_to_opt ss os b) = existsb efinite b.
+Proof.
+  revert ss os; induction b as [|e b IH]; intros [|s ss] [|o os] H1 H2 Hp; cbn in H1, H2; try discriminate; [reflexivity|].
+  inversion Hp as [|? ? Hs Hp']; subst.
+  change (bounds_to_opt (s :: ss) (o :: os) (e :: b)) with (Tb s o e :: bounds_to_opt ss os b).
+  cbn [existsb]. rewrite (efinite_Tb s o e Hs), IH by (auto; lia). reflexivity.
+Qed.
+
+Definition created_from_opt (vs eq nls : option (list Q)) (c : created) : created :=
+  match c with CInfo ci => CInfo (cinfo_from_opt vs eq nls ci) | c => c end.
+
+(* sizes of a configuration with n variables and (length nls) non-linear constraints *)
+Definition ccfg_sized (n : nat) (cfg : ccfg) (cons : option (list Q)) (nls : list Q) : Prop :=
+  length (v_lower cfg) = n /\ length (v_upper cfg) = n /\
+  (forall lc, c_linear cfg = Some lc ->
+     Forall (fun r => length r = n) (l_coef lc) /\ length (l_lower lc) = length (l_coef lc) /\
+     length (l_upper lc) = length (l_coef lc)) /\
+  (forall lo up, c_nonlinear cfg = Some (lo, up) -> length lo = length nls /\ length up = length nls) /\
+  (forall c, cons = Some c -> length c = length nls).
+
+Lemma ofam_eq_none_some_absurd f : ofam_eq None (Some f) -> False. Proof. exact (fun H => H). Qed.
+
+Ltac cinfo_fin :=
+  cbn [created_from_opt created_eq cinfo_from_opt]; unfold cinfo_eq; cbn [ci_bound ci_linear ci_nonlinear];
+  first [exact I | split; [|split]; first [assumption | exact I]].
+
+Theorem constraint_info_invariant n ss os nls cfg cfg' eqo x cons :
+  length x = n -> length ss = n -> length os = n -> positive ss -> positive nls -> ccfg_sized n cfg cons nls ->
+  ccfg_to_opt ss os nls cfg = Some (cfg', eqo) ->
+  created_eq (created_from_opt (Some ss) eqo (Some nls)
+                (create cfg' (to_opt ss os x) (option_map (fun_to_opt nls) cons)))
+             (create cfg x cons).
+Proof.
+  intros Hx Hss Hos Hp Hpn (S1 & S2 & S3 & S4 & S5) Hc.
+  (* the bound family *)
+  assert (HB : any_finite cfg' = any_finite cfg /\
+               v_lower cfg' = bounds_to_opt ss os (v_lower cfg) /\ v_upper cfg' = bounds_to_opt ss os (v_upper cfg) /\
+               c_nonlinear cfg' = match c_nonlinear cfg with
+                                  | Some (lo, up) => Some (ebounds_div nls lo, ebounds_div nls up) | None => None end).
+  { unfold ccfg_to_opt in Hc. destruct (c_linear cfg) as [lc|].
+    - destruct (linear_to_opt ss os lc) as [[lc' eq]|]; [|discriminate]. injection Hc as <- <-. cbn.
+      unfold any_finite; cbn. rewrite !existsb_finite_to_opt by (auto; lia). auto.
+    - injection Hc as <- <-. cbn. unfold any_finite; cbn. rewrite !existsb_finite_to_opt by (auto; lia). auto. }
+  destruct HB as (Hfin & Hlo & Hup & Hnl).
+  assert (HL : match c_linear cfg with
+               | Some lc => exists lc' eq, linear_to_opt ss os lc = Some (lc', eq) /\ c_linear cfg' = Some lc' /\ eqo = Some eq
+               | None => c_linear cfg' = None /\ eqo = None end).
+  { unfold ccfg_to_opt in Hc. destruct (c_linear cfg) as [lc|].
+    - destruct (linear_to_opt ss os lc) as [[lc' eq]|] eqn:E; [|discriminate]. injection Hc as <- <-. cbn. eauto.
+    - injection Hc as <- <-. cbn. auto. }
+  unfold create. rewrite Hfin, Hlo, Hup, Hnl.
+  assert (HBf : ofam_eq (fam_from_opt (Some ss) (Some (mk_family (to_opt ss os x) (bounds_to_opt ss os (v_lower cfg))
+                                                               (bounds_to_opt ss os (v_upper cfg)))))
+                        (Some (mk_family x (v_lower cfg) (v_upper cfg)))) by (apply bound_family_eq; auto; lia).
+  destruct cons as [c|]; cbn [option_map]; destruct (c_nonlinear cfg) as [[lo up]|] eqn:En; try exact I.
+  - (* constraint values and non-linear constraints *)
+    destruct (S4 lo up eq_refl) as (N1 & N2). pose proof (S5 c eq_refl) as N3.
+    pose proof (nonlinear_family_eq nls c lo up N3 N1 N2 Hpn) as HN.
+    destruct (c_linear cfg) as [lc|] eqn:El.
+    + destruct HL as (lc' & eq & Hlin & -> & ->). destruct (S3 lc eq_refl) as (R1 & R2 & R3).
+      pose proof (linear_family_eq ss os x lc lc' eq ltac:(lia) ltac:(lia) Hp ltac:(rewrite Hx; exact R1) R2 R3 Hlin) as HLf.
+      destruct (any_finite cfg); cinfo_fin.
+    + destruct HL as (-> & ->). destruct (any_finite cfg); cinfo_fin.
+  - destruct (c_linear cfg) as [lc|] eqn:El.
+    + destruct HL as (lc' & eq & Hlin & -> & ->). destruct (S3 lc eq_refl) as (R1 & R2 & R3).
+      pose proof (linear_family_eq ss os x lc lc' eq ltac:(lia) ltac:(lia) Hp ltac:(rewrite Hx; exact R1) R2 R3 Hlin) as HLf.
+      destruct (any_finite cfg); cinfo_fin.
+    + destruct HL as (-> & ->). destruct (any_finite cfg); cinfo_fin.
+  - destruct (c_linear cfg) as [lc|] eqn:El.
+    + destruct HL as (lc' & eq & Hlin & -> & ->). destruct (S3 lc eq_refl) as (R1 & R2 & R3).
+      pose proof (linear_family_eq ss os x lc lc' eq ltac:(lia) ltac:(lia) Hp ltac:(rewrite Hx; exact R1) R2 R3 Hlin) as HLf.
+      destruct (any_finite cfg); cinfo_fin.
+    + destruct HL as (-> & ->). destruct (any_finite cfg); cinfo_fin.
+Qed.
+
+(* ================================================================================================ *)
+(* feasibility of a point: user configuration vs validated transformed configuration                  *)
+(* ================================================================================================ *)
+Lemma linear_iff_bool ss os x lc lc' eq :
+  length ss = length x -> length os = length x -> positive ss ->
+  Forall (fun r => length r = length x) (l_coef lc) ->
+  length (l_lower lc) = length (l_coef lc) -> length (l_upper lc) = length (l_coef lc) ->
+  linear_to_opt ss os lc = Some (lc', eq) ->
+  all_within (l_lower lc') (l_upper lc') (matvec (l_coef lc') (to_opt ss os x)) =
+  all_within (l_lower lc) (l_upper lc) (matvec (l_coef lc) x).
+Proof.
+  intros H1 H2 Hp Hrows L1 L2 Hlin.
+  destruct (linear_to_opt_lengths _ _ _ _ _ Hlin L1 L2) as (K1 & K2 & K3 & K4).
+  apply eq_true_iff_eq. rewrite !all_within_spec by (unfold matvec; rewrite map_length; lia).
+  split; intros H i v l u Hv Hl Hu.
+  - unfold matvec in Hv. rewrite nth_error_map in Hv.
+    destruct (nth_error (l_coef lc) i) as [r|] eqn:Er; [|discriminate]. injection Hv as <-.
+    destruct (linear_to_opt_row _ _ _ _ _ _ _ _ _ Hlin Er Hl Hu) as (e & He & Hpos & _ & Hr' & Hlo' & Hup').
+    pose proof (Forall_nth _ _ _ _ Hrows Er) as Hlen.
+    destruct (linear_row_invariant ss os x r l u e Hlen H1 H2 Hp Hpos) as (A & _). rewrite <- A.
+    apply (H i); [unfold matvec; rewrite nth_error_map, Hr'; reflexivity | exact Hlo' | exact Hup'].
+  - unfold matvec in Hv. rewrite nth_error_map in Hv.
+    destruct (nth_error (l_coef lc') i) as [r'|] eqn:Er'; [|discriminate]. injection Hv as <-.
+    destruct (nth_error_lt_some (l_coef lc) i) as (r & Er); [rewrite <- K2; eapply nth_error_some_lt; exact Er'|].
+    destruct (nth_error_lt_some (l_lower lc) i) as (l0 & El0); [rewrite L1; eapply nth_error_some_lt; exact Er|].
+    destruct (nth_error_lt_some (l_upper lc) i) as (u0 & Eu0); [rewrite L2; eapply nth_error_some_lt; exact Er|].
+    destruct (linear_to_opt_row _ _ _ _ _ _ _ _ _ Hlin Er El0 Eu0) as (e & He & Hpos & _ & Hr' & Hlo' & Hup').
+    rewrite Hr' in Er'; injection Er' as <-. rewrite Hlo' in Hl; injection Hl as <-. rewrite Hup' in Hu; injection Hu as <-.
+    pose proof (Forall_nth _ _ _ _ Hrows Er) as Hlen.
+    destruct (linear_row_invariant ss os x r l0 u0 e Hlen H1 H2 Hp Hpos) as (A & _). rewrite A.
+    apply (H i); [unfold matvec; rewrite nth_error_map, Er; reflexivity | exact El0 | exact Eu0].
+Qed.
+
+Theorem feasible_point_iff n ss os nls cfg cfg' eqo x :
+  length x = n -> length ss = n -> length os = n -> positive ss -> ccfg_sized n cfg None nls ->
+  ccfg_to_opt ss os nls cfg = Some (cfg', eqo) ->
+  feasible_point cfg' (to_opt ss os x) = feasible_point cfg x.
+Proof.
+  intros Hx Hss Hos Hp (S1 & S2 & S3 & _ & _) Hc. unfold feasible_point, ccfg_to_opt in *.
+  destruct (c_linear cfg) as [lc|] eqn:El.
+  - destruct (linear_to_opt ss os lc) as [[lc' eq]|] eqn:Hlin; [|discriminate]. injection Hc as <- <-. cbn.
+    destruct (S3 lc eq_refl) as (R1 & R2 & R3).
+    rewrite bounds_iff_bool by (auto; lia). f_equal.
+    apply (linear_iff_bool ss os x lc lc' eq); auto; try lia. rewrite Hx; exact R1.
+  - injection Hc as <- <-. cbn. rewrite bounds_iff_bool by (auto; lia). reflexivity.
+Qed.
